@@ -192,8 +192,8 @@ func (worldS) Gen(r *core.Rand, env *core.Env) SCase {
 			flushes++
 		}
 	}
-	if c.ValMode == 2 && !c.Crash && codecLongRunsOn() && r.Intn(30) == 0 {
-		// long-run flavour (s_codec.go; off unless VERIF_C07_LONGRUN=1, see notes/leads.md L6): a segment size above 100000 rows and one float column of three very long runs
+	if c.ValMode == 2 && !c.Crash && codecLongRunsDraw(r) {
+		// long-run flavour (s_codec.go): a segment size of 65528 rows and one float column with a run of 36000 rows
 		c.Knobs.RowsPerSegment = codecLongSeg
 		wid++
 		c.Ops = append(c.Ops, SOp{K: "w", ID: wid, Rows: genCodecLongRuns(r, &c, r.Intn(c.NMst))}, SOp{K: "flush"})
